@@ -1063,9 +1063,15 @@ func (ce *commandEncoder) end() {
 // commandEncoder.end to release the lock.
 func (ce *commandEncoder) flush() {
 	if err := ce.Encoder.CRLF(); err != nil {
-		// TODO: consider stashing the error in Client to return it in future
-		// calls
-		ce.client.closeWithError(err)
+		// If the server has refused a synchronizing literal with a tagged NO
+		// or BAD, the command is already completed and nothing more has been
+		// written: the connection is still usable
+		var imapErr *imap.Error
+		if !errors.As(err, &imapErr) {
+			// TODO: consider stashing the error in Client to return it in
+			// future calls
+			ce.client.closeWithError(err)
+		}
 	}
 	ce.Encoder = nil
 }
